@@ -171,6 +171,18 @@ func DecodeFile(r io.Reader, options ...Option) (*File, error) {
 		}
 	}
 
+	// Box start positions follow the bytes consumed, not the recalculated box sizes
+	// (a box other than mdat with a 64-bit size field is re-encoded with a 32-bit one)
+	cr := &countingReader{r: r}
+	var lazyStart int64
+	if rs != nil {
+		var err error
+		lazyStart, err = rs.Seek(0, io.SeekCurrent)
+		if err != nil {
+			return nil, err
+		}
+	}
+
 LoopBoxes:
 	for {
 		var box Box
@@ -179,7 +191,7 @@ LoopBoxes:
 		case DecModeLazyMdat:
 			box, err = DecodeBoxLazyMdat(boxStartPos, rs)
 		case DecModeNormal:
-			box, err = DecodeBox(boxStartPos, r)
+			box, err = DecodeBox(boxStartPos, cr)
 		default:
 			return nil, fmt.Errorf("unknown DecFileMode=%d", f.fileDecMode)
 		}
@@ -189,7 +201,7 @@ LoopBoxes:
 		if err != nil {
 			return nil, err
 		}
-		boxType, boxSize := box.Type(), box.Size()
+		boxType := box.Type()
 		switch boxType {
 		case "mdat":
 			if f.isFragmented {
@@ -235,10 +247,30 @@ LoopBoxes:
 		}
 		f.AddChild(box, boxStartPos)
 		lastBoxType = boxType
-		boxStartPos += boxSize
+		if rs != nil {
+			pos, err := rs.Seek(0, io.SeekCurrent)
+			if err != nil {
+				return nil, err
+			}
+			boxStartPos = uint64(pos - lazyStart)
+		} else {
+			boxStartPos = cr.n
+		}
 	}
 	f.tfra = nil // Not needed anymore
 	return f, nil
+}
+
+// countingReader counts the bytes read through it
+type countingReader struct {
+	r io.Reader
+	n uint64
+}
+
+func (c *countingReader) Read(p []byte) (int, error) {
+	n, err := c.r.Read(p)
+	c.n += uint64(n)
+	return n, err
 }
 
 // Size - total size of all boxes
